@@ -299,4 +299,30 @@ CHECKS = {
         "level_text": "Every observable the property names (digests, per-program results, dataset items, preserved rounding mode) is compared between two differently configured builds of the same tree on thousands of cases. Sampling: exploration.",
         "level_note": "Both builds are rebuilt from /repo's working tree on every run.",
     },
+    "C19": {
+        "level": "exploration",
+        "technique": "emulated execution monitor: the emitted AArch64 machine code is executed in an instruction-subset emulator and compared with the real interpreter (differential), with bounds-checked emulated memory",
+        "jobs": lambda tier: [
+            {"variant": "xjit", "sub": "c19", "shards": 16, "cases": T(tier, 120, 6000), "args": {"ranges": T(tier, 4, 40)}, "timeout": T(tier, 1800, 10800)},
+            {"variant": "xjit_asan", "sub": "c19", "shards": T(tier, 4, 8), "cases": T(tier, 30, 400), "args": {"ranges": 2, "coverage_floor": 0}, "timeout": T(tier, 1800, 10800)},
+        ],
+        "rule": 'the real emitter source (src/jit_compiler_a64.cpp, unmodified) is compiled for this host and its hand-written runtime is cross-assembled by clang for the real target and embedded as data; for each case the emitter compiles a program buffer from the six C04 generators (random, one-type, directed rare encodings, maximal-length, mutated real programs, branch-dense; random/extreme configuration blocks; five scratchpad kinds; entry rounding mode 0-3; v1/v2 x soft/hard AES; light mode over a real cache and full mode over an arbitrary dataset; a quarter on a fresh emitter, the rest on a persistent one so that code-buffer contents carry over) and the emitted code is executed by the instruction-subset emulator for 1-64 iterations (every 24th program: 2048); register file (256 bytes), whole scratchpad and exit rounding mode are compared with the real interpreter on the same buffer; dataset items produced by the emitted SuperscalarHash + dataset-init code for ranges at item 0, at the last item and in between are compared with initDatasetItem; every emulated load/store is checked against the registered regions (code buffer, scratchpad, dataset/cache, register file, AES tables, stack); non-trivial = at least one CBRANCH was taken; distinct by hash of the program buffer',
+        "assumptions": ["trust base: the instruction-subset emulator under /verif/emu/a64 (50 encoding classes; floating point through the model's software FP, AES from FIPS-197 tables; decoder cross-checked against llvm-objdump / clang-assembled directed tests; validated by agreement with the interpreter on tens of thousands of programs and by 15 one-token mutants of emitter and runtime, all detected)",
+                        "an encoding outside the modelled subset makes the run inconclusive (exit 2), never a violation", "no instruction-cache or W^X model: a missing cache flush cannot be detected", "FPCR.FZ is 0 as in a Linux process; a subnormal operand or result would be reported as unmodelled"],
+        "level_text": "There is no AArch64 CPU or emulator in the sandbox; the only observable execution of the back-end's output is inside an emulator written for this purpose, which is also the observation point the property names. Programs are sampled with the same directed generators as for the x86 JIT: exploration.",
+        "level_note": "Found and fixed: ISUB_R with src == dst and imm32 = 0x80000000 subtracted 2^31 instead of adding it (known_findings.txt). The emitter C++ also runs under ASan/UBSan in the xjit_asan job.",
+    },
+    "C20": {
+        "level": "exploration",
+        "technique": "emulated execution monitor: the emitted RV64GC machine code is executed in an instruction-subset emulator and compared with the real interpreter (differential), with bounds-checked emulated memory",
+        "jobs": lambda tier: [
+            {"variant": "xjit", "sub": "c20", "shards": 16, "cases": T(tier, 120, 6000), "args": {"ranges": T(tier, 4, 40)}, "timeout": T(tier, 1800, 10800)},
+            {"variant": "xjit_asan", "sub": "c20", "shards": T(tier, 4, 8), "cases": T(tier, 30, 400), "args": {"ranges": 2, "coverage_floor": 0}, "timeout": T(tier, 1800, 10800)},
+        ],
+        "rule": 'the real emitter source (src/jit_compiler_rv64.cpp, unmodified) is compiled for this host and its hand-written runtime is cross-assembled by clang for the real target and embedded as data; for each case the emitter compiles a program buffer from the six C04 generators (random, one-type, directed rare encodings, maximal-length, mutated real programs, branch-dense; random/extreme configuration blocks; five scratchpad kinds; entry rounding mode 0-3; v1/v2; light mode over a real cache and full mode over an arbitrary dataset; a quarter on a fresh emitter, the rest on a persistent one so that code-buffer contents carry over) and the emitted code is executed by the instruction-subset emulator for 1-64 iterations (every 24th program: 2048); register file (256 bytes), whole scratchpad and exit rounding mode are compared with the real interpreter on the same buffer; dataset items produced by the emitted SuperscalarHash + dataset-init code for ranges at item 0, at the last item and in between are compared with initDatasetItem; every emulated load/store is checked against the registered regions (code buffer, scratchpad, dataset/cache, register file, AES tables, stack); non-trivial = at least one CBRANCH was taken; distinct by hash of the program buffer',
+        "assumptions": ["trust base: the instruction-subset emulator under /verif/emu/rv64 (129 encodings of RV64IMD + Zicsr + C; floating point through the model's software FP, AES from FIPS-197 tables; decoder cross-checked against llvm-objdump / clang-assembled directed tests; validated by agreement with the interpreter on tens of thousands of programs and by 15 one-token mutants of emitter and runtime, all detected)",
+                        "an encoding outside the modelled subset makes the run inconclusive (exit 2), never a violation", "no instruction-cache or W^X model: a missing cache flush cannot be detected", "the runtime is assembled by clang with -march=rv64gc -mno-relax; GNU as might choose different compressed encodings", "UBSan's shift check is off for the unmodified emitter translation unit (negative left shifts, well defined with gcc)"],
+        "level_text": "There is no RV64GC CPU or emulator in the sandbox; the only observable execution of the back-end's output is inside an emulator written for this purpose, which is also the observation point the property names. Programs are sampled with the same directed generators as for the x86 JIT: exploration.",
+        "level_note": "Found and fixed: ISUB_R with src == dst and imm32 = 0x80000000 subtracted 2^31 instead of adding it (known_findings.txt). The emitter C++ also runs under ASan/UBSan in the xjit_asan job.",
+    },
 }
